@@ -5,6 +5,14 @@ Oracle: a list-of-token reference copy of the Frame/Series with exactly the addr
 snapshotted before and after every call.  TypeBlocks-level model correspondence (drop / ufunc /
 astype generators) is part of C03's `tb` cases; here the model supplies `Key.positions` and the
 ascending-slice function, and the theorems of Props/C08 are audited.
+
+Assignment generator: the interfaces assign_elem / assign_array (and the dedicated `tb_assign` cases) also
+run the real `TypeBlocks._assign_from_iloc_by_unit(row_key, column_key, value)` (wrapped in
+`TypeBlocks.from_blocks` as `extract_iloc_assign_by_unit` does) next to the Lean model `TB.assignUnit`
+(driver op `tb.assign`): row count, block layout, per-column dtype tokens and the cell tokens are compared
+(unaddressed columns exactly; addressed columns up to NumPy's value conversion into the resolved dtype,
+which the model does not perform), and for ascending column keys a Lean-independent reference (the
+original columns with exactly the addressed cells replaced, unaddressed dtypes kept) is the oracle.
 """
 from __future__ import annotations
 
@@ -14,16 +22,22 @@ from check import Failure
 from sfv import gen
 from sfv.canon import tok, untok, err_cat, dtype_tok, array_toks, frame_snapshot, series_snapshot
 from sfv.props.c04 import ref_positions, label_key, incl_positions, cell_equal
+from sfv.tbwire import Interner, tb_wire_from_blocks, answer_tb, real_tb_view
 
 TARGETS = ['SFModel.Props.C08', 'SFModel.Props.C04Asc', 'SFModel.Bridge']
 THEOREMS = []  # filled from tools/meta at import (see below)
 PARTIAL = []
-CORR_ONLY = ['Frame/Series assign (element, array, Series, Frame values; iloc/loc/getitem/bloc), mask, relabel, rename, insert_before/after: reference-model oracle',
+CORR_ONLY = ['Frame/Series assign with Series / Frame values (label alignment, _assign_from_iloc_by_blocks), assign.bloc, assign.apply, mask, relabel, rename, insert_before/after: reference-model oracle',
+             'Frame.assign with element / array values: proved at the TypeBlocks generator (assign_exact) + correspondence of the generator; the Frame wrapper (key_to_ascending_key, label keys) by the oracle',
              'TypeBlocks drop/astype/ufunc generators: model correspondence in the C03 tb cases']
 RULE = ('random frames/series x layout x interface (assign/drop/mask/astype/relabel/rename/insert) x route (iloc/loc/getitem/bloc) x '
-        'selector kinds x value shapes; non-trivial = non-empty container and a key that is not the null slice on both axes; '
+        'selector kinds x value shapes; tb_assign: layouts with wide 2-D blocks x ascending column keys that address a strict part of a block x '
+        'row keys (null, repeats, empty, integer) x value shapes (element, 1-D per row / per column, 2-D, surplus columns), thorough: every layout of '
+        '<= 3 columns (some of 4) x every column subset exhaustively; non-trivial = non-empty container and a key that is not the null slice on both axes; '
         'distinct = distinct canonical case JSON')
-TRUSTED = ['NumPy astype value conversion (reference uses the same conversion on a single column)']
+TRUSTED = ['NumPy astype value conversion (reference uses the same conversion on a single column)',
+           'NumPy value conversion when a sub-block is copied into the resolved dtype / a value is stored (assignUnit carries cells over unchanged; addressed columns are compared with == on the cell values)',
+           'resolve_dtype answers are supplied to the model as a table of the pairs the run observes (resolution itself is C07)']
 ASSUMPTIONS = ['unlabelled 2-D array values are generated only with ascending column keys (assignment order for non-ascending keys is documented as key-order independent, finding F14)']
 BUDGET = {'quick': 200, 'thorough': 1700}
 
@@ -56,6 +70,10 @@ def cases(ctx):
         ck = gen.rand_key(rng, m, unique_list=True)
         yield {'k': iface, 'spec': spec, 'route': route, 'rk': rk, 'ck': ck, 'val': rng.choice(VALUES), 'r': rng.randint(0, 10 ** 6)}
     yield from _astype_stream(ctx, rng, 500 if quick else 6000)
+    yield from _tbassign_fixed()
+    yield from _tbassign_stream(ctx, ctx.rng('tbassign'), 1500 if quick else 12000)
+    if not quick:
+        yield from _tbassign_exhaustive(ctx)
 
 
 def _astype_stream(ctx, rng, count):
@@ -73,10 +91,313 @@ def _astype_stream(ctx, rng, count):
         yield {'k': 'astype', 'spec': spec, 'route': 'getitem', 'rk': ['all'], 'ck': ck, 'val': 'i:7', 'r': 3 + 5 * rng.randint(0, 10 ** 5)}
 
 
+TBV_KINDS = ['elem', 'rows', 'cols', 'mat', 'cols_surplus', 'mat_surplus']   # value shapes at the generator
+TBV_DTYPES = ['i', 'f', 's', 'b']
+
+
+def _tb_case(spec, rk, ck, vk, vd, val, r=0):
+    return {'k': 'tb_assign', 'spec': spec, 'route': 'iloc', 'rk': rk, 'ck': ck, 'vk': vk, 'vd': vd, 'val': val, 'r': r}
+
+
+def _fixed_spec(dts, layout, n):
+    cols = []
+    for j, dt in enumerate(dts):
+        if dt == 'int64':
+            v = [f'i:{10 * j + i}' for i in range(n)]
+        elif dt == 'float64':
+            v = [tok(10.0 * j + i + 0.5) for i in range(n)]
+        elif dt == 'bool':
+            v = [f'b:{(i + j) % 2}' for i in range(n)]
+        else:
+            v = [tok(f'c{j}r{i}') for i in range(n)]
+        cols.append({'dt': dt, 'v': v})
+    return {'index': {'kind': 'auto', 'labels': [f'i:{i}' for i in range(n)]},
+            'columns': {'kind': 'auto', 'labels': [f'i:{j}' for j in range(len(dts))]}, 'cols': cols,
+            'layout': [list(b) for b in layout], 'rows': n}
+
+
+def _tbassign_fixed():
+    """hand-picked shapes: the middle column of a 3-wide block, an empty TypeBlocks, the counterexample of
+    Props/C08 (unordered key: the second key column is never assigned), a descending run inside a block"""
+    s3 = _fixed_spec(['int64', 'float64', 'float64', 'float64'], [[1, False], [3, True]], 2)
+    yield _tb_case(s3, ['list', 1], ['int', 2], 'elem', 'i', 'i:99')
+    yield _tb_case(s3, ['all'], ['mask', 1, 0, 1, 0], 'mat', 'i', 'i:0')
+    yield _tb_case(s3, ['sl', None, None, 1], ['sl', 1, 3, None], 'cols', 'f', 'i:0')
+    yield _tb_case(s3, ['sl', None, None, 1], ['int', 2], 'rows', 'f', 'i:0')
+    e = _fixed_spec([], [], 3)
+    yield _tb_case(e, ['all'], ['all'], 'elem', 'i', 'i:9')
+    s1 = _fixed_spec(['int64', 'int64', 'int64'], [[1, False], [1, False], [1, False]], 2)
+    yield _tb_case(s1, ['all'], ['list', 2, 0], 'mat', 'i', 'i:0')
+    yield _tb_case(s1, ['all'], ['list', 0, 2], 'mat', 'i', 'i:0')
+    s4 = _fixed_spec(['int64', 'int64', 'int64', 'float64'], [[3, True], [1, False]], 3)
+    yield _tb_case(s4, ['list', 0, 1], ['list', 2, 1], 'mat', 'i', 'i:0')
+    yield _tb_case(s4, ['all'], ['list', 2, 1], 'mat', 'i', 'i:0')
+    yield _tb_case(s4, ['all'], ['sl', 2, None, -1], 'elem', 'i', 'i:5')
+
+
+def _tbv_choices(rk, ck):
+    """value shapes the generator accepts for these key kinds (one cell per addressed cell, or surplus columns)"""
+    if ck[0] == 'int':
+        return ['elem'] if rk[0] == 'int' else ['elem', 'rows']
+    if rk[0] == 'int':
+        return ['elem', 'cols', 'cols_surplus']
+    return ['elem', 'cols', 'mat', 'cols_surplus', 'mat_surplus']
+
+
+def _tbassign_stream(ctx, rng, count):
+    """frames with long same-dtype runs (wide 2-D blocks); ascending column keys of every kind that address a
+    strict part of a block, several separated parts of one block, block boundaries; row keys: null slice (both
+    spellings), integer, slice, list with repeats / empty, mask; all value shapes"""
+    for i in range(count):
+        spec = gen.rand_frame_spec(rng, 4, 7, dtypes=rng.choice([['int64', 'float64'], ['int64', 'float64', 'bool', 'str'], gen.DTYPES_BASIC, gen.DTYPES_ALL]),
+                                   index_kinds=('auto',), column_kinds=('auto',), min_cols=1, min_rows=0 if rng.random() < 0.1 else 1,
+                                   run_bias=0.8, na=0.1)
+        n, m = spec['rows'], len(spec['cols'])
+        kind = rng.choice(['mask', 'mask', 'list', 'sl', 'int', 'all', 'list'])
+        if kind == 'mask':
+            ck = ['mask'] + [1 if rng.random() < 0.5 else 0 for _ in range(m)]
+        elif kind == 'list':
+            ps = sorted(rng.sample(range(m), rng.randint(0, m)))
+            if rng.random() < 0.12 and len(ps) >= 2:
+                rng.shuffle(ps)          # unordered key: only the correspondence (the property excludes it)
+            ck = ['list'] + [p if rng.random() < 0.8 else p - m for p in ps]
+        elif kind == 'sl':
+            a, b = sorted((rng.randint(0, m), rng.randint(0, m)))
+            ck = ['sl', a if rng.random() < 0.8 else None, b if rng.random() < 0.8 else None, rng.choice([None, None, 1, 2, 3])]
+        elif kind == 'int':
+            ck = ['int', rng.randint(-m, m - 1)]
+        else:
+            ck = ['all']
+        rkind = rng.choice(['all', 'all', 'null', 'int', 'sl', 'list', 'list', 'mask', 'dup', 'empty'])
+        if rkind == 'all':
+            rk = ['all']
+        elif rkind == 'null':
+            rk = ['sl', None, None, None]
+        elif rkind == 'int' and n > 0:
+            rk = ['int', rng.randint(-n, n - 1)]
+        elif rkind == 'sl':
+            rk = gen.rand_slice(rng, n)
+        elif rkind == 'mask':
+            rk = ['mask'] + [rng.randint(0, 1) for _ in range(n)]
+        elif rkind == 'dup' and n > 0:
+            rk = ['list'] + [rng.randint(-n, n - 1) for _ in range(rng.randint(2, 5))]
+        elif rkind == 'empty' or n == 0:
+            rk = ['list']
+        else:
+            rk = ['list'] + rng.sample(range(n), rng.randint(1, n))
+        vk = rng.choice(_tbv_choices(rk, ck))
+        yield _tb_case(spec, rk, ck, vk, rng.choice(TBV_DTYPES), rng.choice(VALUES), rng.randint(0, 10 ** 6))
+
+
+def _tbassign_exhaustive(ctx):
+    """thorough tier: 2 rows, every dtype pattern over {int64, float64} and every layout of <= 3 columns (three
+    patterns of 4 columns), every column subset as a mask, every integer, slices, the null slice; 8 row keys;
+    the value shapes rotate"""
+    import itertools
+    n = 2
+    rks = [['all'], ['list', 0], ['list', 1, 0], ['int', 1], ['mask', 0, 1], ['sl', None, None, None], ['list', 1, 1, 0], ['list']]
+    k = 0
+    for m in (1, 2, 3, 4):
+        pats = list(itertools.product(['int64', 'float64'], repeat=m)) if m <= 3 else [
+            ('int64',) * 4, ('int64', 'int64', 'float64', 'float64'), ('float64', 'int64', 'int64', 'int64')]
+        for dts in pats:
+            for layout in gen.layouts_for(list(dts)):
+                spec = _fixed_spec(list(dts), layout, n)
+                cks = [['mask'] + list(bits) for bits in itertools.product([0, 1], repeat=m)]
+                cks += [['int', j] for j in range(m)] + [['all'], ['sl', 1, None, None], ['sl', None, None, 2], ['sl', 0, m - 1, None]]
+                for ck in cks:
+                    for rk in rks:
+                        ch = _tbv_choices(rk, ck)
+                        for t in range(2):
+                            k += 1
+                            yield _tb_case(spec, rk, ck, ch[(k + t) % len(ch)], TBV_DTYPES[k % 2], VALUES[k % len(VALUES)], k)
+
+
 def model_lines(c):
     spec = c['spec']
-    return [f'key.positions {gen.key_to_wire(c["rk"])} {spec["rows"]}',
-            f'key.positions {gen.key_to_wire(c["ck"])} {len(spec["cols"])}']
+    lines = [f'key.positions {gen.key_to_wire(c["rk"])} {spec["rows"]}',
+             f'key.positions {gen.key_to_wire(c["ck"])} {len(spec["cols"])}']
+    plan = _tb_plan(c)
+    c['_tb'] = plan
+    if plan is not None:
+        lines.append(plan['line'])
+    return lines
+
+
+# ------------------------------------------------------------------ the assignment generator next to its model
+def _tb_blocks(spec):
+    import static_frame as sf
+    if not spec['cols']:
+        return sf.TypeBlocks.from_zero_size_shape((spec['rows'], 0))
+    return sf.TypeBlocks.from_blocks(gen.build_blocks(spec))
+
+
+def _tb_value(vk, vd, nr, nc, val_t):
+    """the assigned value: (python value, per-column token lists or None, kind for the model)"""
+    if vk == 'elem':
+        return untok(val_t), None, 'elem'
+    dt = {'i': np.int64, 'f': np.float64, 's': '<U6', 'b': bool}[vd]
+
+    def cell(i, j):
+        return {'i': 1000 + 10 * i + j, 'f': 1000.5 + 10 * i + j, 's': f'v{i}_{j}', 'b': (i + j) % 2 == 0}[vd]
+    if vk == 'rows':
+        arr = np.array([cell(i, 0) for i in range(nr)], dtype=dt)
+        return arr, None, 'col'
+    width = nc + (1 if vk.endswith('_surplus') else 0)
+    if vk.startswith('cols'):
+        arr = np.array([cell(0, j) for j in range(width)], dtype=dt)
+        return arr, None, 'col'
+    arr = np.array([[cell(i, j) for j in range(width)] for i in range(nr)], dtype=dt).reshape(nr, width)
+    return arr, None, 'mat'
+
+
+def _tb_plan(c):
+    """driver line + everything `evaluate` needs for the generator correspondence of this case (or None)"""
+    iface = c['k']
+    if iface not in ('assign_elem', 'assign_array', 'tb_assign'):
+        return None
+    spec = c['spec']
+    n, m = spec['rows'], len(spec['cols'])
+    rpos, cpos = ref_positions(c['rk'], n), ref_positions(c['ck'], m)
+    if isinstance(cpos, tuple) or isinstance(rpos, tuple):
+        return None
+    if iface == 'assign_elem':
+        vk, vd = 'elem', 'i'
+    elif iface == 'assign_array':
+        ch = [x for x in _tbv_choices(c['rk'], c['ck']) if x != 'elem']
+        if not ch:
+            return None
+        vk, vd = ch[c['r'] % len(ch)], TBV_DTYPES[(c['r'] // 7) % len(TBV_DTYPES)]
+    else:
+        vk, vd = c['vk'], c['vd']
+    from static_frame.core.util import dtype_from_element, resolve_dtype
+    tb = _tb_blocks(spec)
+    it = Interner()
+    w = tb_wire_from_blocks(tb._blocks, n, it)
+    value, _, mk = _tb_value(vk, vd, len(rpos), len(cpos), c['val'])
+    vdt = dtype_from_element(value)
+    vt = dtype_tok(vdt)
+    if mk == 'elem':
+        vw = f'(elem {vt} {it.atom(tok(value))})'
+    elif mk == 'col':
+        vw = f'(col {vt} ' + ' '.join(it.atom(t) for t in array_toks(value)) + ')'
+    else:
+        vw = f'(mat {vt} ' + ' '.join('(' + ' '.join(it.atom(t) for t in array_toks(value[:, j])) + ')' for j in range(value.shape[1])) + ')'
+    table = {}
+    for b in tb._blocks:
+        bt = dtype_tok(b.dtype)
+        table[(vt, bt)] = dtype_tok(resolve_dtype(vdt, b.dtype))
+        table[(bt, vt)] = dtype_tok(resolve_dtype(b.dtype, vdt))
+    tab = ' '.join(f'({a} {b} {r})' for (a, b), r in sorted(table.items()))
+    line = f'tb.assign {w} {gen.key_to_wire(c["rk"])} {gen.key_to_wire(c["ck"])} {vw} ({tab})'
+    return {'line': line, 'it': it, 'vk': vk, 'vd': vd, 'mk': mk, 'rpos': rpos, 'cpos': cpos}
+
+
+def _tb_reference(tb_view, plan, value):
+    """Lean-independent reference for an ascending, duplicate-free column key: the original columns with exactly the
+    addressed cells replaced (rows in key order, a repeated row keeps the last value); None for unaddressed dtypes"""
+    rpos, cpos, mk, vk = plan['rpos'], plan['cpos'], plan['mk'], plan['vk']
+    exp = [list(col) for col in tb_view['cols']]
+    for cj, j in enumerate(cpos):
+        for ri, i in enumerate(rpos):
+            if mk == 'elem':
+                t = tok(value)
+            elif mk == 'col':
+                t = array_toks(value)[ri if vk == 'rows' else cj]
+            else:
+                t = array_toks(value[:, cj])[ri]
+            exp[j][i] = t
+    return exp
+
+
+def eval_tb_assign(ctx, c, out, plan):
+    """real `_assign_from_iloc_by_unit` (wrapped in from_blocks) vs the model's answer, and vs the reference"""
+    import static_frame as sf
+    import warnings
+    fails = []
+    spec = c['spec']
+    it = plan['it']
+    rpos, cpos = plan['rpos'], plan['cpos']
+    tb = _tb_blocks(spec)
+    before = real_tb_view(tb)
+    value, _, _ = _tb_value(plan['vk'], plan['vd'], len(rpos), len(cpos), c['val'])
+    prk, pck = gen.key_to_py(c['rk']), gen.key_to_py(c['ck'])
+    ascending = all(a < b for a, b in zip(cpos, cpos[1:]))
+    ctx.count('tbassign_cases')
+    ctx.count(f'tbassign_val_{plan["vk"]}')
+    ctx.count(f'tbassign_ck_{c["ck"][0]}' + ('' if ascending else '_unordered'))
+    ctx.count(f'tbassign_rk_{c["rk"][0]}')
+    if c['rk'] in (['all'], ['sl', None, None, None]):
+        ctx.count('tbassign_null_row_key')
+    # does the key address a strict, non-empty part of a 2-D block (the block must be split)?
+    j0 = 0
+    for wdt, is2d in before['layout']:
+        inside = [j for j in cpos if j0 <= j < j0 + wdt]
+        if wdt > 1 and 0 < len(set(inside)) < wdt:
+            ctx.count('tbassign_block_split')
+            if all(j0 < j < j0 + wdt - 1 for j in inside):
+                ctx.count('tbassign_block_split_middle_only')
+            break
+        j0 += wdt
+    with warnings.catch_warnings():
+        warnings.simplefilter('ignore')
+        try:
+            real = real_tb_view(sf.TypeBlocks.from_blocks(tb._assign_from_iloc_by_unit(prk, pck, value)))
+        except Exception as ex:
+            real = ('err', err_cat(ex), f'{type(ex).__name__}: {str(ex)[:100]}')
+    if real_tb_view(tb) != before:
+        fails.append(Failure('oracle', 'TypeBlocks._assign_from_iloc_by_unit: the original TypeBlocks changed', c))
+    mod = answer_tb(out, it)
+    what = f'TypeBlocks._assign_from_iloc_by_unit rk={c["rk"]} ck={c["ck"]} value={plan["vk"]}/{plan["vd"]} layout={spec["layout"]}'
+    # --- correspondence
+    if isinstance(real, tuple) or isinstance(mod, tuple):
+        ctx.count('tbassign_error_cases')
+        if not (isinstance(real, tuple) and isinstance(mod, tuple) and real[1] == mod[1]):
+            fails.append(Failure('corr', f'{what}: model {out[:120]} vs real {str(real)[:160]}', c))
+    else:
+        diff = None
+        if mod['rows'] != real['rows']:
+            diff = f'rows {mod["rows"]} vs {real["rows"]}'
+        elif mod['layout'] != real['layout']:
+            diff = f'layout {mod["layout"]} vs {real["layout"]}'
+        elif mod['dtypes'] != real['dtypes']:
+            diff = f'dtypes {mod["dtypes"]} vs {real["dtypes"]}'
+        else:
+            addressed = set(cpos) if ascending else set(range(len(real['cols'])))
+            for j, (cm, cr) in enumerate(zip(mod['cols'], real['cols'])):
+                ok = (len(cm) == len(cr) and all(same_value(g, w) for g, w in zip(cr, cm))) if j in addressed else cm == cr
+                if not ok:
+                    diff = f'column {j}: model {cm} vs real {cr}'
+                    break
+        if diff:
+            fails.append(Failure('corr', f'{what}: {diff}', c))
+        else:
+            ctx.count('tbassign_corr_agree')
+    # --- oracle (the property, for the keys the generator supports: ascending column positions)
+    if ascending:
+        if isinstance(real, tuple):
+            if spec['cols']:
+                fails.append(Failure('oracle', f'{what}: raised {real[2]}', c, detail={'exc': real[2]}))
+        else:
+            exp = _tb_reference(before, plan, value)
+            msg = None
+            if real['rows'] != before['rows'] or len(real['cols']) != len(before['cols']):
+                msg = f'shape ({real["rows"]}, {len(real["cols"])})'
+            else:
+                for j in range(len(exp)):
+                    got, want = real['cols'][j], exp[j]
+                    if j in cpos:
+                        if not (len(got) == len(want) and all(same_value(g, w) for g, w in zip(got, want))):
+                            msg = f'addressed column {j}: {got} != {want}'
+                            break
+                    elif got != want or real['dtypes'][j] != before['dtypes'][j]:
+                        msg = f'unaddressed column {j} changed: {got}/{real["dtypes"][j]} != {want}/{before["dtypes"][j]}'
+                        break
+            if msg:
+                fails.append(Failure('oracle', f'{what}: {msg}', c, detail={'what': msg}))
+            else:
+                ctx.count('tbassign_oracle_agree')
+    return fails
 
 
 def evaluate(ctx, c, outs):
@@ -87,6 +408,7 @@ def evaluate(ctx, c, outs):
     n, m = spec['rows'], len(spec['cols'])
     rk, ck = c['rk'], c['ck']
     rpos, cpos = ref_positions(rk, n), ref_positions(ck, m)
+    plan = c.pop('_tb', None)
     if outs:
         for key, pos, out in ((rk, rpos, outs[0]), (ck, cpos, outs[1])):
             got = gen.parse_ok_list(out)
@@ -94,6 +416,10 @@ def evaluate(ctx, c, outs):
                 fails.append(Failure('corr', f'Key.positions {key}: model {out} vs reference {pos}', c))
     if isinstance(rpos, tuple) or isinstance(cpos, tuple):
         ctx.count('invalid_key_skipped')
+        return fails
+    if plan is not None and len(outs) >= 3:
+        fails += eval_tb_assign(ctx, c, outs[2], plan)
+    if c['k'] == 'tb_assign':
         return fails
     f = gen.build_frame(spec)
     before = frame_snapshot(f)
